@@ -357,7 +357,7 @@ def c27(ctx):
         ctx.notes.append("%s: %d cases, e.g. %s" % (k, len(v), "; ".join(v[:4])))
     ctx.notes.append("rows that Parse accepts as another valid packet: real decoder agreed on %d, differed on %d (value agreement is "
                      "decided by C42/C26, e.g. the AUTH short forms): %s" % (ex["ok_rows_agree"], ex["ok_rows_disagree"],
-                     sorted(set(d["hex"] for d in ex["ok_rows_disagree_samples"]))[:8]))
+                     sorted(set(d["hex"] for d in (ex["ok_rows_disagree_samples"] or [])))[:8]))
     _cov(ctx, [thm, r], traces_validated_against_impl=0, evaluations=res["evaluations"], distinct_nontrivial=res["distinct_nontrivial"],
          rule="(A) TLC asserts on %d domain packets that every encoding parses back and every strict prefix fails with class 'length'.  "
               "(B) For %d valid encodings (every %s of GenWire's domain, all 15 types, MQTT 3.1.1 and 5) TLC emits every cut of the packet, "
